@@ -228,7 +228,7 @@ def answerVar (main : List String) (dict : Dict) : String :=
       else
         let r : M String := do
           let df ← readCsv {} (oracle dict) p b
-          let vars ← setupTerminals (typing == "1") df.cols
+          let vars ← setupTerminals {} (typing == "1") df.cols
           let parts ← vars.mapM (fun v => do
             let vals ← (df.examples.take 3).mapM (fun e => do
               let x ← evalVar v e
